@@ -21,7 +21,12 @@ func (c16) Level() string { return "exploration" }
 func (c16) Rule() string {
 	return "every zoo type (incl. recursive, mutually recursive, embedded, custom-named, slices of slices, maps of structs) x witnesses {zero value, &T{}, empty non-nil containers, one element everywhere, fully populated, cyclic} -> ExtractTypeNameMap / TypeMapFrom / NameMapFrom / TypeMapOf must return (child process with a 64 MiB stack limit), every struct and slice type reachable from T by type (harness walk with a visited set) must be present under its wire name with nameMap[Go name] = wire name (custom name when declared) and typMap[wire name] = the Go type, and other values u of T must round-trip (C01 oracle) with the maps extracted from the witness. TypeMapOf is judged by separately tagged sub-claims (termination / struct types present / slice types present). Non-trivial = type has >= 1 reachable struct or slice type; distinct by (type, witness kind, seed)."
 }
-func (c16) ProcOpts() Proc { return Proc{RlimitAS: 4 << 30, MaxStack: 64 << 20} }
+
+// "extraction terminates": a worker that computes for 40 CPU-seconds inside one journalled step (one
+// extraction takes microseconds) is in a call that does not return - a violation, decided on CPU time
+func (c16) ProcOpts() Proc {
+	return Proc{RlimitAS: 4 << 30, MaxStack: 64 << 20, StallSec: 60, StallCPU: 40}
+}
 
 var c16witness = []string{"zero", "ptr-zero", "empty", "one", "full", "cyclic", "nil-elems", "iface-cycle"}
 
@@ -81,8 +86,8 @@ func reachable(t reflect.Type, structs, slices map[reflect.Type]bool, seen map[r
 			reachable(t.Field(i).Type, structs, slices, seen)
 		}
 	case reflect.Slice, reflect.Array:
-		if t.Elem().Kind() == reflect.Uint8 {
-			return
+		if t == reflect.TypeOf([]byte(nil)) {
+			return // binary data; every other slice of uint8 kind (named, or of a named element type) is a list
 		}
 		if !rootIface(t) {
 			slices[t] = true
@@ -103,6 +108,13 @@ func rootIface(t reflect.Type) bool {
 
 func customName(t reflect.Type) (string, bool) {
 	v := reflect.New(t).Elem()
+	if t.Kind() == reflect.Struct {
+		for i := 0; i < t.NumField(); i++ {
+			if f := v.Field(i); t.Field(i).Anonymous && f.Kind() == reflect.Ptr && f.CanSet() {
+				f.Set(reflect.New(f.Type().Elem())) // a promoted method must not be called through a nil embedded pointer
+			}
+		}
+	}
 	if v.CanInterface() {
 		if n, ok := v.Interface().(hessian.CodecNamable); ok {
 			name := n.HessianCodecName()
@@ -111,8 +123,13 @@ func customName(t reflect.Type) (string, bool) {
 			// the type declares one" is read as "declares itself"
 			if t.Kind() == reflect.Struct {
 				for i := 0; i < t.NumField(); i++ {
-					if f := t.Field(i); f.Anonymous && f.Type.Kind() == reflect.Struct {
-						if en, ok := reflect.New(f.Type).Elem().Interface().(hessian.CodecNamable); ok && en.HessianCodecName() == name {
+					f := t.Field(i)
+					ft := f.Type
+					if ft.Kind() == reflect.Ptr {
+						ft = ft.Elem()
+					}
+					if f.Anonymous && ft.Kind() == reflect.Struct {
+						if en, ok := reflect.New(ft).Elem().Interface().(hessian.CodecNamable); ok && en.HessianCodecName() == name {
 							return "", false
 						}
 					}
